@@ -259,21 +259,26 @@ example : (mpf_mul_ui 0 (mkSt r5 default default) .r (B - 1)).ok = true := by de
 -- negative: `prec = r->_mp_prec + 1` keeps three limbs and stores the carry at rp[3]
 example : (mpf_mul_ui 1 (mkSt r2 u5 default) .u (B - 1)).ok = false := by decide
 
-/-- mpf_add (r, u, v) (mpf/add.c), operands of equal sign or a zero operand (different signs: the call goes to mpf_sub,
-    `mpf_add = none`), every operand length and exponent, every alias pattern (u, v ∈ {r, u, v}: r == u, r == v, u == v, all
+/-- mpf_add (r, u, v) (mpf/add.c), EVERY sign combination (different signs: add.c:56-64 hands the call to mpf_sub with a
+    negated copy of v's header — the equal-sign path of sub.c, mirrored at store level by `subStore`: exactly the result
+    limbs at rp[0, rsize), see `mpf_sub_dest_safe_partial` for what that level leaves out), every operand length and exponent, every alias pattern (u, v ∈ {r, u, v}: r == u, r == v, u == v, all
     three): no load or store leaves a block — the operands are read inside their |SIZ| limbs after the two cuts to `prec`
     limbs; the three alignments fill at most `prec` limbs of the TMP area of `prec` limbs; MPN_COPY (rp, tp, rsize) and the
     UNCONDITIONAL store `rp[rsize] = cy` use indices ≤ PREC, inside the PREC + 1 limbs; the early copy of the
     `ediff >= prec` case copies ≤ PREC limbs (none when rp == up) —, the other variables, PREC (r) and the block length are
     unchanged, and SIZ, EXP and the limbs are those of the bit-exact C13 model `Mpf.add` (with its `r == u`, `r == v` flags).
-    Hypotheses: the operands' limbs are proper limbs (`Limbs`, part of `Mpf.OpWF`). -/
-theorem mpf_add_dest_safe (s : St) (us vs : Src) (hs : s.ok = true) (hr : DestWF s.r)
-    (hu : OpndWF (s.obj us)) (hv : OpndWF (s.obj vs)) (hlu : Limbs (s.obj us).view.d) (hlv : Limbs (s.obj vs).view.d) :
-    ∀ s', mpf_add 0 s us vs = some s' →
+    Hypotheses: PREC ≥ 2 (every mpf_init2 / mpf_set_prec gives that: __GMPF_BITS_TO_PREC), operands in mpf format (`Mpf.OpWF`:
+    proper limbs, top limb non-zero, zero has exponent 0).  `mpf_add` always answers `some`. -/
+theorem mpf_add_dest_safe (s : St) (us vs : Src) (hs : s.ok = true) (hr : DestWF s.r) (hp : 2 ≤ s.r.prec)
+    (hu : OpndWF (s.obj us)) (hv : OpndWF (s.obj vs)) (hou : Mpf.OpWF (s.obj us).view) (hov : Mpf.OpWF (s.obj vs).view) :
+    (mpf_add 0 s us vs).isSome = true ∧ ∀ s', mpf_add 0 s us vs = some s' →
       s'.ok = true ∧ s'.u = s.u ∧ s'.v = s.v ∧ s'.r.prec = s.r.prec ∧ s'.r.blk.alloc = s.r.blk.alloc ∧ BlkWF s'.r.blk ∧
       s'.r.view = Mpf.add s.r.prec (decide (us = .r)) (decide (vs = .r)) (s.obj us).view (s.obj vs).view := by
+  have hlu := hou.1
+  have hlv := hov.1
+  refine ⟨by unfold mpf_add; simp only; split_ifs <;> rfl, ?_⟩
   intro s' h
-  have F := mpf_add_frame s us vs hs hr hu hv s' h
+  have F := mpf_add_frame s us vs hs hr hp hu hv hou hov s' h
   refine ⟨F.ok, F.u, F.v, F.prec, F.alloc, F.wf, ?_⟩
   unfold mpf_add at h
   unfold Mpf.add
@@ -299,7 +304,12 @@ theorem mpf_add_dest_safe (s : St) (us vs : Src) (hs : s.ok = true) (hr : DestWF
     · rw [if_neg hv0] at h
       rw [if_neg (show ¬ (s.obj vs).view.size = 0 from hv0)]
       by_cases hsg : (decide ((s.obj us).size < 0) != decide ((s.obj vs).size < 0)) = true
-      · rw [if_pos hsg] at h; cases h
+      · rw [if_pos hsg] at h
+        rw [if_pos (show ((decide ((s.obj us).view.size < 0) != decide ((s.obj vs).view.size < 0)) = true) from hsg)]
+        cases h
+        exact (subStore_spec s us vs _ hs hr hu hv
+          (Mpf.subMag_spec s.r.prec hp (s.obj us).view _ hou (Mpf.OpWF_neg_size _ hov) hu0 (by simpa [FObj.view] using hv0)
+            (sign_flip hu0 hv0 hsg)).1 (subMag_prec _ _ _ _)).2
       · rw [if_neg hsg] at h
         rw [if_neg (show ¬ ((decide ((s.obj us).view.size < 0) != decide ((s.obj vs).view.size < 0)) = true) from hsg)]
         cases h
@@ -318,12 +328,12 @@ theorem mpf_add_dest_safe (s : St) (us vs : Src) (hs : s.ok = true) (hr : DestWF
 
 
 /-- mpf_add, non-zero operands of equal sign: the result header is well formed (|SIZ| ≤ PREC + 1, top limb non-zero). -/
-theorem mpf_add_dest_wf (s : St) (us vs : Src) (hs : s.ok = true) (hr : DestWF s.r) (hp : 1 ≤ s.r.prec)
+theorem mpf_add_dest_wf (s : St) (us vs : Src) (hs : s.ok = true) (hr : DestWF s.r) (hp : 2 ≤ s.r.prec)
     (hu : OpndWF (s.obj us)) (hv : OpndWF (s.obj vs)) (hou : Mpf.OpWF (s.obj us).view) (hov : Mpf.OpWF (s.obj vs).view)
     (hu0 : (s.obj us).size ≠ 0) (hv0 : (s.obj vs).size ≠ 0) (hsg : (s.obj us).size < 0 ↔ (s.obj vs).size < 0) :
     ∀ s', mpf_add 0 s us vs = some s' → Mpf.WF s'.r.view := by
   intro s' h
-  rw [(mpf_add_dest_safe s us vs hs hr hu hv hou.1 hov.1 s' h).2.2.2.2.2.2]
+  rw [((mpf_add_dest_safe s us vs hs hr hp hu hv hou hov).2 s' h).2.2.2.2.2.2]
   have e : Mpf.add s.r.prec (decide (us = .r)) (decide (vs = .r)) (s.obj us).view (s.obj vs).view =
       Mpf.addSame s.r.prec (s.obj us).view (s.obj vs).view := by
     unfold Mpf.add
@@ -336,7 +346,7 @@ theorem mpf_add_dest_wf (s : St) (us vs : Src) (hs : s.ok = true) (hr : DestWF s
         simp [hn, this]
     rw [if_neg this]
   rw [e]
-  exact (Mpf.addSame_spec s.r.prec hp _ _ hou hov hu0 hv0 hsg).1
+  exact (Mpf.addSame_spec s.r.prec (by omega) _ _ hou hov hu0 hv0 hsg).1
 
 /-- three limbs of ones, exponent 3 -/
 def u3 : FObj := mkObj 0 false 3 [B - 1, B - 1, B - 1] 1
